@@ -393,14 +393,29 @@ def to_symmatrix(m):
     return SymMatrix(c.shape, c.row.copy(), c.col.copy(), c.data.astype(object))
 
 
+LU_LOG = []  # contract instances recorded during a symbolic run: (A dense object matrix, x symbols, b, trans)
+
+
 class _LU:
-    """Opaque LU handle: stores the matrix; solves are never executed symbolically here."""
+    """Contract stub for LU handles (DESIGN 2.3): factorisation is not executed; a solve returns a fresh symbolic
+    vector x constrained by  A x = b  (trans=0 / 'N')  or  A^T x = b  (trans=1 / 'T').  The constraints are recorded in
+    LU_LOG and become hypotheses of the C02 obligations."""
 
     def __init__(self, a):
-        self.a = a
+        self.a = a.toarray() if isinstance(a, SymMatrix) or _sp.issparse(a) else _np.asarray(a, dtype=object)
 
     def solve(self, b, trans="N"):
-        raise UnsupportedNumpy("symbolic LU solve (use the contract stub of C02)")
+        return _lu_contract(self.a, b, 1 if trans in (1, "T") else 0)
+
+
+def _lu_contract(a, b, trans):
+    b = _np.asarray(b, dtype=object)
+    n = a.shape[0]
+    if b.shape != (n,):
+        raise UnsupportedNumpy("LU contract stub: right-hand side of shape %r for a %dx%d system" % (b.shape, n, n))
+    x = _s.symarray("lu_x%d" % len(LU_LOG), (n,))
+    LU_LOG.append((a, x, b.copy(), trans))
+    return x
 
 
 def lu_factor(a, *args, **k):
@@ -408,11 +423,28 @@ def lu_factor(a, *args, **k):
 
 
 def lu_solve(lu, b, trans=0):
-    raise UnsupportedNumpy("symbolic lu_solve (use the contract stub of C02)")
+    return _lu_contract(lu.a, b, trans)
 
 
 def splu(a, *args, **k):
     return _LU(a)
+
+
+def lu_hypotheses():
+    """SymBool equalities of every recorded solve"""
+    hyp = []
+    for (a, x, b, trans) in LU_LOG:
+        m = a.T if trans else a
+        n = m.shape[0]
+        for i in range(n):
+            row = _s.ZERO
+            for j in range(n):
+                aij = S(m[i, j])
+                if aij is _s.ZERO:
+                    continue
+                row = row + aij * x[j]
+            hyp.append(_s.eq(row, S(b[i])))
+    return hyp
 
 
 _FUNC_REBIND = {}
